@@ -680,6 +680,7 @@ type c03Runner struct {
 	c       *core.Ctx
 	dir     string
 	verbose bool
+	limit   int64 // > 0: @@LIMIT_RECURSION of the process images (families whose valid queries need far fewer iterations)
 	fu      [4][]parser.Statement
 	rb      []parser.Statement
 }
@@ -858,6 +859,9 @@ func (r *c03Runner) runWorld(family string, cat *c03Cat, w *c03World, mode c03Mo
 	env := drv.New(dir)
 	defer env.Close()
 	env.Tx.Flags.SetCPU(mode.CPU)
+	if r.limit > 0 {
+		env.Tx.Flags.SetLimitRecursion(r.limit)
+	}
 	env.Tx.UpdateWaitTimeout(300, 5*time.Millisecond) // csvq's lock wait limit must not fire on a loaded machine
 
 	t1, t2 := w.T1, w.T2
@@ -1443,12 +1447,18 @@ func c03Replay(c *core.Ctx, raw json.RawMessage) {
 		c03Ranges(c)
 		return
 	}
+	if c03DiffReplay(c, raw) {
+		return
+	}
 	p.World.decode()
 	r := newC03Runner(c)
 	r.verbose = true
+	if p.Family == "recset" {
+		r.limit = c03RecsetLimit
+	}
 	both := &c03Cat{name: "both"}
 	for _, th := range []bool{false, true} {
-		for _, cat := range []*c03Cat{c03CatSingle(th), c03CatPair(th)} {
+		for _, cat := range []*c03Cat{c03CatSingle(th), c03CatPair(th), c03CatRecset()} {
 			for _, q := range cat.qs {
 				if q.ID == p.Query && len(both.qs) == 0 {
 					both.qs = append(both.qs, q)
